@@ -148,7 +148,7 @@ func (g *gen) iofaults(p *Plan) {
 	case 1, 2: // consumer side
 		p.Kind = "rfault"
 		st, bs, n, _ := g.storedFrame(p, 5, false)
-		if g.r.Chance(1, 8) {
+		if g.r.Chance(1, 12) {
 			// legacy frames end with the source: every size-word read is a
 			// place where an error could be mistaken for the end
 			if st.Base == "lz4w" {
